@@ -105,6 +105,17 @@ theorem tables_global_paths :
     globalPlainPaths.map (·.1) = tables.globalPlain ∧ globalMethPaths.map (·.1) = tables.globalMeth := by
   decide
 
+/-- nothing in the five world-building modules can carry state from one construction to the next or
+between sibling objects: no module- or class-level mutable container, no caching decorator, no copy
+hook, no in-place mutation of a constants list (directly, through an alias or through the class) -/
+theorem tables_no_shared_state : sharedStateHazards = [] := by decide
+
+/-- pickling round trip: every class hands `_reconstruct` as many arguments as it accepts, and each
+argument lands in the attribute it was read from -/
+theorem tables_reduce_roundtrip :
+    reduceTable.map (·.1) = ["Infrastructure", "Site", "Equipment_Group", "Component", "Source"] ∧
+    ∀ r ∈ reduceTable, r.2.2.1 ≤ r.2.1 ∧ r.2.1 ≤ r.2.2.2.1 ∧ r.2.2.2.2 = true := by decide
+
 /-! ## 3. the model of the code equals the closed form -/
 
 /-- the levels of one chain, for the column `c`: site type (if any), site, equipment group -/
@@ -561,6 +572,28 @@ theorem site_ids_distinct (tb : Tables) (methods : List String) (G : Dict String
   have hla : a < (files.sites.map (·.sid)).length := by simpa using h.2.2 a ha
   have hlb : b < (files.sites.map (·.sid)).length := by simpa using h.2.2 b hb
   exact hab ((List.getD_inj hla hlb hfile).mp heq)
+
+/-- **no history, no leak between sibling sites**: the site built for a row of the sites file is a
+function of that row (and the files) alone — it does not depend on which other rows were sampled
+with it, on their number or on the order of the sample -/
+theorem site_independent_of_sample (tb : Tables) (methods : List String) (G : Dict String)
+    (Gm : Dict MKey) (files : Files) (picks₁ picks₂ : List Nat) (j₁ j₂ : Nat)
+    (h₁ : j₁ < picks₁.length) (h₂ : j₂ < picks₂.length) (hrow : picks₁[j₁] = picks₂[j₂]) :
+    (buildWorld tb methods G Gm files picks₁)[j₁]'(by simpa [buildWorld] using h₁)
+      = (buildWorld tb methods G Gm files picks₂)[j₂]'(by simpa [buildWorld] using h₂) := by
+  simp [buildWorld, hrow]
+
+/-- the order in which the rows are drawn only permutes the sites of the world -/
+theorem world_perm_of_sample_perm (tb : Tables) (methods : List String) (G : Dict String)
+    (Gm : Dict MKey) (files : Files) (picks₁ picks₂ : List Nat) (h : picks₁.Perm picks₂) :
+    (buildWorld tb methods G Gm files picks₁).Perm (buildWorld tb methods G Gm files picks₂) :=
+  h.map _
+
+/-- a smaller sample gives a sub-world: dropping rows from the sample drops exactly their sites -/
+theorem world_sublist_of_sample_sublist (tb : Tables) (methods : List String) (G : Dict String)
+    (Gm : Dict MKey) (files : Files) (picks₁ picks₂ : List Nat) (h : picks₁.Sublist picks₂) :
+    (buildWorld tb methods G Gm files picks₁).Sublist (buildWorld tb methods G Gm files picks₂) :=
+  h.map _
 
 /-- named equipment: one group per name of the site's (or its type's) equipment list, in order -/
 theorem structure_groups_named (tb : Tables) (methods : List String) (G : Dict String) (Gm : Dict MKey)
